@@ -151,6 +151,15 @@ impl Check for C14 {
             return RunOut::fail(Violation::new("C14.panic", format!("h3 panicked in task {}: {} at {}", p.task, p.msg, p.loc)).fact("at", p.loc.rsplit('/').next().unwrap_or("")));
         }
         obs::note(|| format!("build cfg {:?} chaos {:?}", out.setup.build, out.setup.chaos));
+        if out.stop == crate::exec::Stop::StepCap {
+            // what is on the wire so far may already say why (streams opened without end, ...)
+            if let Err(v) = judge(&out) {
+                return RunOut::fail(v);
+            }
+            let n = out.net.lock().unwrap();
+            let opened = [n.sides[CLIENT as usize].opened_uni.len(), n.sides[SERVER as usize].opened_uni.len()];
+            return RunOut::fail(Violation::new("C14.step_cap", format!("no quiescence within the step cap; unidirectional streams opened: client {}, server {}; pending {:?}", opened[0], opened[1], out.pending)));
+        }
         match judge(&out) {
             Err(v) => RunOut::fail(v),
             Ok((cw, sw)) => {
